@@ -2,7 +2,7 @@
 """seed_sweep.py [ids...]: run, for every seeded change under /verif/seeded, the quick check of the property it
 breaks against a scratch worktree of /repo with the change applied (never /repo itself); record which caught it."""
 import json, os, subprocess, sys, time
-V = '/verif'; WT = '/tmp/sweep-repo'
+V = '/verif'; WT = os.environ.get('SWEEP_WT', '/tmp/sweep-repo')
 # the checks are run from a snapshot of /verif (SWEEP_CODE), so that editing /verif during a sweep cannot disturb it
 CODE = os.environ.get('SWEEP_CODE', V)
 ids = sys.argv[1:] or sorted(os.listdir(V + '/seeded'))
@@ -10,7 +10,7 @@ ids = [i for i in ids if os.path.isdir(V + '/seeded/' + i)]
 subprocess.run(['git', '-C', '/repo', 'worktree', 'remove', '--force', WT], stderr=subprocess.DEVNULL)
 subprocess.run(['git', '-C', '/repo', 'worktree', 'prune'])
 subprocess.run(['git', '-C', '/repo', 'worktree', 'add', '-q', '--detach', WT, 'HEAD'], check=True)
-env = dict(os.environ, VERIF_REPO=WT, VERIF_CACHE='/tmp/masa-verif-cache-sweep')
+env = dict(os.environ, VERIF_REPO=WT, VERIF_CACHE='/tmp/masa-verif-cache-' + os.path.basename(WT))
 res = {}
 try:
     for sid in ids:
@@ -20,12 +20,13 @@ try:
         key = sid
         extra = {'C01b': ['C11'], 'C02b': ['C10'], 'C05b': ['C10'], 'C04b': ['C10'], 'C06': ['C10'], 'C07': ['C10'], 'C08': ['C10'], 'C10b': ['C08'], 'C11b': ['C16'],
                  'C16': ['C12'], 'C16b': ['C12'], 'C20': ['C02'], 'C20b': ['C03'], 'C15b': ['C12'],
-                 'R2-C10': ['C05'], 'R2-C13b': ['C17'], 'R2-C09': ['C04'], 'R2-C09b': ['C03'], 'R2-C11b': ['C12'], 'R2-C12': ['C11']}.get(sid, [])
+                 'R2-C10': ['C05'], 'R3-C01': ['C10'], 'R3-C01b': ['C09'], 'R3-C02': ['C10'], 'R3-C02b': ['C15', 'C14'], 'R3-C04': ['C10'], 'R3-C05b': ['C09'], 'R3-C06b': ['C10'],
+                 'R3-C07': ['C15', 'C14'], 'R3-C08': ['C10'], 'R3-C14': ['C15'], 'R3-C14b': ['C17'], 'R3-C20': ['C10', 'C02'], 'R3-C20b': ['C09'], 'R2-C13b': ['C17'], 'R2-C09': ['C04'], 'R2-C09b': ['C03'], 'R2-C11b': ['C12'], 'R2-C12': ['C11']}.get(sid, [])
         subprocess.run(['git', '-C', WT, 'apply', sd + '/patch.diff'], check=True)
         out = {}
         for c in [prop] + extra:
             t = time.time()
-            r = subprocess.run(['python3', CODE + '/checks/run.py', c, 'quick'], stdout=subprocess.PIPE, stderr=subprocess.STDOUT, text=True, cwd=CODE, env=dict(env, VERIF_EVIDENCE_DIR='/tmp/sweep-evidence'))
+            r = subprocess.run(['python3', CODE + '/checks/run.py', c, 'quick'], stdout=subprocess.PIPE, stderr=subprocess.STDOUT, text=True, cwd=CODE, env=dict(env, VERIF_EVIDENCE_DIR='/tmp/evidence-' + os.path.basename(WT)))
             first = [l.strip() for l in r.stdout.splitlines() if l.strip().startswith('rejected') or 'VIOLATION fortran' in l or 'VIOLATION header' in l or 'ended abnormally' in l or 'sanitizer report' in l][:1]
             out[c] = dict(rc=r.returncode, seconds=round(time.time() - t), first=(first[0][:400] if first else ''))
             print(sid, c, 'rc=%d' % r.returncode, '%ds' % out[c]['seconds'], (first[0][:200] if first else ''), flush=True)
